@@ -14,7 +14,103 @@ import Proofs.RoundTrip
 -/
 
 namespace SpecP
-open Spec
+open Spec RT
+
+
+/-! ### the equations of `payload` / `recsOf` / `fieldsOf`
+
+`Spec.form` tabulates payload and records together; these are its rows read
+through the two projections `Spec.payload` and `Spec.recsOf`. -/
+
+theorem payload_bool (b : Bool) : payload .bool (.bool b) = varint (if b then 1 else 0) := by
+  simp [payload, form, one]
+theorem payload_int (w : Nat) (i : Int) : payload (.int w) (.int i) = svarint i := by
+  simp [payload, form, one]
+theorem payload_uint (w n : Nat) : payload (.uint w) (.uint n) = varint n := by
+  simp [payload, form, one]
+theorem payload_flat (w : Nat) (i : Int) : payload (.flat w) (.int i) = varint (wrapU w i) := by
+  simp [payload, form, one]
+theorem payload_f32 (b : Nat) : payload .f32 (.f32 b) = leBytes 4 b := by
+  simp [payload, form, one]
+theorem payload_f64 (b : Nat) : payload .f64 (.f64 b) = leBytes 8 b := by
+  simp [payload, form, one]
+theorem payload_str (c : Bool) (s : Bytes) : payload (.str c) (.str s) = s := by
+  simp [payload, form, one]
+theorem payload_bytes (s : Bytes) : payload .bytes (.bytes s) = s := by
+  simp [payload, form, one]
+theorem payload_time (c : Bool) (sec : Int) (nsec : Nat) :
+    payload (.time c) (.time sec nsec)
+      = render [⟨1, .varint, if c then varint (wrapU 64 sec) else svarint sec⟩,
+                ⟨2, .varint, if c then varint nsec else svarint nsec⟩] := by
+  simp [payload, form, one]
+theorem payload_ptr_none (t : Ty) : payload (.ptr t) (.ptr none) = [] := by
+  simp [payload, form]
+theorem payload_ptr_some (t : Ty) (v : Val) : payload (.ptr t) (.ptr (some v)) = payload t v := by
+  simp [payload, form]
+theorem payload_vslice (t : Ty) (vs : List Val) :
+    payload (.vslice t) (.slice vs) = vs.flatMap fun v => payload t v := by
+  simp [payload, form, one]
+theorem payload_fslice (t : Ty) (vs : List Val) :
+    payload (.fslice t) (.slice vs) = vs.flatMap fun v => payload t v := by
+  simp [payload, form, one]
+theorem payload_lslice (t : Ty) (vs : List Val) :
+    payload (.lslice t) (.slice vs) = varint vs.length ++ vs.flatMap fun v => lenPrefixed (payload t v) := by
+  simp [payload, form, one]
+theorem payload_pslice (t : Ty) (vs : List Val) :
+    payload (.pslice t) (.slice vs) = vs.flatMap fun v => payload t v := by
+  simp [payload, form]
+theorem payload_struct (n : String) (fs : Fields) (vs : List Val) :
+    payload (.struct n fs) (.struct vs) = render (fieldsOf fs vs) := by
+  simp [payload, form, one]
+
+/-- one map entry: the message {key = 1; value = 2} with the omission rule. -/
+def entryRecs (k v : Ty) (e : Val × Val) : List Rec :=
+  (if absent e.1 then [] else recsOf k 1 e.1) ++ (if absent e.2 then [] else recsOf v 2 e.2)
+
+theorem payload_map_some (k v : Ty) (es : List (Val × Val)) :
+    payload (.map k v false) (.map (some es))
+      = varint es.length ++ es.flatMap fun e => lenPrefixed (render (entryRecs k v e)) := by
+  simp [payload, form, one, entryRecs, recsOf]
+theorem payload_map_none (k v : Ty) : payload (.map k v false) (.map none) = varint 0 := by
+  simp [payload, form, one]
+theorem payload_pmap_some (k v : Ty) (es : List (Val × Val)) :
+    payload (.map k v true) (.map (some es)) = es.flatMap fun e => lenPrefixed (render (entryRecs k v e)) := by
+  simp [payload, form, entryRecs, recsOf]
+theorem payload_pmap_none (k v : Ty) : payload (.map k v true) (.map none) = [] := by
+  simp [payload, form]
+
+theorem recsOf_ptr_none (t : Ty) (i : Nat) : recsOf (.ptr t) i (.ptr none) = [] := by
+  simp [recsOf, form]
+theorem recsOf_ptr_some (t : Ty) (i : Nat) (v : Val) : recsOf (.ptr t) i (.ptr (some v)) = recsOf t i v := by
+  simp [recsOf, form]
+theorem recsOf_pslice_eq (t : Ty) (i : Nat) (vs : List Val) :
+    recsOf (.pslice t) i (.slice vs) = vs.flatMap fun v => orEmpty i (recsOf t i v) := by
+  simp [recsOf, form]
+theorem recsOf_pmap_some (k v : Ty) (i : Nat) (es : List (Val × Val)) :
+    recsOf (.map k v true) i (.map (some es)) = es.map fun e => ⟨i, .len, render (entryRecs k v e)⟩ := by
+  simp [recsOf, form, entryRecs]
+theorem recsOf_pmap_none (k v : Ty) (i : Nat) : recsOf (.map k v true) i (.map none) = [] := by
+  simp [recsOf, form]
+
+theorem fieldsOf_cons' (i : Nat) (n : String) (t : Ty) (fs : Fields) (v : Val) (vs : List Val) :
+    fieldsOf ((i, n, t) :: fs) (v :: vs) = (if absent v then [] else recsOf t i v) ++ fieldsOf fs vs := by
+  simp [fieldsOf, recsOf]
+
+/-- every kind but pointers and the two protobuf repeated forms: one record,
+carrying the payload, of the documented wire type. -/
+theorem recsOf_single_np (t : Ty) (i : Nat) (v : Val) (hp : t.isPtr = false) (hr : t.isProtoRep = false)
+    (hty : t.hasTy v) : recsOf t i v = [⟨i, wtOf t, payload t v⟩] := by
+  cases t with
+  | map k x p =>
+    cases p with
+    | true => simp [Ty.isProtoRep] at hr
+    | false =>
+      cases v with
+      | map o => cases o <;> simp [recsOf, payload, form, one, wtOf]
+      | _ => simp [Ty.hasTy] at hty
+  | ptr u => simp [Ty.isPtr] at hp
+  | pslice u => simp [Ty.isProtoRep] at hr
+  | _ => cases v <;> simp [Ty.hasTy] at hty <;> simp [recsOf, payload, form, one, wtOf]
 
 theorem tag_eq (wt : WT) (i : Nat) (h : i < 2 ^ 61) : appendTag wt i = varint (i * 8 + wt.code) := by
   have hc := code_lt wt
@@ -69,63 +165,61 @@ def EncLaw (t : Ty) : Prop :=
     (∀ i v, i < 2 ^ 61 → t.hasTy v → t.app v (appendTag t.wt i) = render (recsOf t i v))
 
 theorem encLaw_single (t : Ty) (hnp : t.isPtr = false) (hnr : t.isProtoRep = false)
-    (hrec : ∀ i v, t.hasTy v → recsOf t i v = [⟨i, wtOf t, payload t v⟩])
     (hA : t.wf → ∀ v, t.hasTy v → t.app v [] = payload t v) : EncLaw t := by
   intro hwf
   refine ⟨hA hwf, fun i v hi hty => ?_⟩
   have hp := present_of_not_ptr t v hnp hty
-  rw [hrec i v hty, render_single, wtOf_eq]
+  rw [recsOf_single_np t i v hnp hnr hty, render_single, wtOf_eq]
   by_cases hw : t.wt = .len
   · rw [app_frame_len t v _ hwf hty hp hw (by rw [RT.deref_of_not_ptr t hnp]; exact hnr)
       (RT.appendTag_ne_nil _ _), hA hwf v hty, hw, renderRec_len i hi]
   · rw [app_frame_other t v _ hwf hty hp hw, hA hwf v hty, renderRec_other i hi _ hw]
 
 theorem encLaw_bool : EncLaw .bool :=
-  encLaw_single _ rfl rfl (fun i v h => by cases v <;> simp [Ty.hasTy] at h <;> simp [recsOf])
-    (fun _ v h => by cases v <;> simp [Ty.hasTy] at h <;> simp [Ty.app, payload, varint])
+  encLaw_single _ rfl rfl
+    (fun _ v h => by cases v <;> simp [Ty.hasTy] at h <;> simp [Ty.app, payload_bool, varint])
 
 
 theorem encLaw_int (w : Nat) : EncLaw (.int w) :=
-  encLaw_single _ rfl rfl (fun i v h => by cases v <;> simp [Ty.hasTy] at h <;> simp [recsOf])
-    (fun _ v h => by cases v <;> simp [Ty.hasTy] at h <;> simp [Ty.app, payload, varint, svarint, appendVarInt])
+  encLaw_single _ rfl rfl
+    (fun _ v h => by cases v <;> simp [Ty.hasTy] at h <;> simp [Ty.app, payload_int, varint, svarint, appendVarInt])
 
 theorem encLaw_uint (w : Nat) : EncLaw (.uint w) :=
-  encLaw_single _ rfl rfl (fun i v h => by cases v <;> simp [Ty.hasTy] at h <;> simp [recsOf])
-    (fun _ v h => by cases v <;> simp [Ty.hasTy] at h <;> simp [Ty.app, payload, varint])
+  encLaw_single _ rfl rfl
+    (fun _ v h => by cases v <;> simp [Ty.hasTy] at h <;> simp [Ty.app, payload_uint, varint])
 
 theorem encLaw_flat (w : Nat) : EncLaw (.flat w) :=
-  encLaw_single _ rfl rfl (fun i v h => by cases v <;> simp [Ty.hasTy] at h <;> simp [recsOf])
-    (fun _ v h => by cases v <;> simp [Ty.hasTy] at h <;> simp [Ty.app, payload, varint])
+  encLaw_single _ rfl rfl
+    (fun _ v h => by cases v <;> simp [Ty.hasTy] at h <;> simp [Ty.app, payload_flat, varint])
 
 theorem encLaw_f32 : EncLaw .f32 :=
-  encLaw_single _ rfl rfl (fun i v h => by cases v <;> simp [Ty.hasTy] at h <;> simp [recsOf])
-    (fun _ v h => by cases v <;> simp [Ty.hasTy] at h <;> simp [Ty.app, payload])
+  encLaw_single _ rfl rfl
+    (fun _ v h => by cases v <;> simp [Ty.hasTy] at h <;> simp [Ty.app, payload_f32])
 
 theorem encLaw_f64 : EncLaw .f64 :=
-  encLaw_single _ rfl rfl (fun i v h => by cases v <;> simp [Ty.hasTy] at h <;> simp [recsOf])
-    (fun _ v h => by cases v <;> simp [Ty.hasTy] at h <;> simp [Ty.app, payload])
+  encLaw_single _ rfl rfl
+    (fun _ v h => by cases v <;> simp [Ty.hasTy] at h <;> simp [Ty.app, payload_f64])
 
 theorem encLaw_str (b : Bool) : EncLaw (.str b) :=
-  encLaw_single _ rfl rfl (fun i v h => by cases v <;> simp [Ty.hasTy] at h <;> simp [recsOf])
-    (fun _ v h => by cases v <;> simp [Ty.hasTy] at h <;> simp [Ty.app, payload, frame])
+  encLaw_single _ rfl rfl
+    (fun _ v h => by cases v <;> simp [Ty.hasTy] at h <;> simp [Ty.app, payload_str, frame])
 
 theorem encLaw_bytes : EncLaw .bytes :=
-  encLaw_single _ rfl rfl (fun i v h => by cases v <;> simp [Ty.hasTy] at h <;> simp [recsOf])
-    (fun _ v h => by cases v <;> simp [Ty.hasTy] at h <;> simp [Ty.app, payload, frame])
+  encLaw_single _ rfl rfl
+    (fun _ v h => by cases v <;> simp [Ty.hasTy] at h <;> simp [Ty.app, payload_bytes, frame])
 
 theorem tag1_eq : tag1 = varint (1 * 8 + WT.varint.code) := tag_eq _ _ (by omega)
 theorem tag2_eq : tag2 = varint (2 * 8 + WT.varint.code) := tag_eq _ _ (by omega)
 
 theorem encLaw_time (c : Bool) : EncLaw (.time c) :=
-  encLaw_single _ rfl rfl (fun i v h => by cases v <;> simp [Ty.hasTy] at h <;> simp [recsOf])
+  encLaw_single _ rfl rfl
     (fun _ v h => by
       cases v with
       | time s n =>
         simp only [Ty.hasTy] at h
         have hn : wrapU 32 (n : Int) = n := wrapU_natCast 32 n (by simp [validWidth]) (by omega)
         cases c <;>
-          simp [Ty.app, payload, frame, timeBody, render, renderRec, tag1_eq, tag2_eq, svarint, varint,
-            appendVarInt, hn]
+          simp [Ty.app, payload_time, frame, timeBody, render, renderRec, tag1_eq, tag2_eq, svarint, varint, appendVarInt, hn]
       | _ => simp [Ty.hasTy] at h)
 
 
@@ -135,46 +229,42 @@ theorem render_append (a b : List Rec) : render (a ++ b) = render a ++ render b 
 theorem render_nil : render [] = [] := rfl
 
 theorem encLaw_vslice (t : Ty) (ih : EncLaw t) : EncLaw (.vslice t) :=
-  encLaw_single _ rfl rfl (fun i v h => by cases v <;> simp [Ty.hasTy] at h <;> simp [recsOf])
+  encLaw_single _ rfl rfl
     (fun hwf v h => by
       cases v with
       | slice vs =>
         simp only [Ty.wf] at hwf
         simp only [Ty.hasTy] at h
-        simp only [Ty.app, frame_nil, payload]
+        simp only [Ty.app, frame_nil, payload_vslice]
         exact flatMap_congr' _ _ vs (fun a ha => (ih hwf.1).1 a (h a ha))
       | _ => simp [Ty.hasTy] at h)
 
 theorem encLaw_fslice (t : Ty) (ih : EncLaw t) : EncLaw (.fslice t) :=
-  encLaw_single _ rfl rfl (fun i v h => by cases v <;> simp [Ty.hasTy] at h <;> simp [recsOf])
+  encLaw_single _ rfl rfl
     (fun hwf v h => by
       cases v with
       | slice vs =>
         simp only [Ty.wf] at hwf
         have hwf' : t.wf := by rcases hwf with rfl | rfl <;> simp [Ty.wf]
         simp only [Ty.hasTy] at h
-        simp only [Ty.app, frame_nil, payload]
+        simp only [Ty.app, frame_nil, payload_fslice]
         exact flatMap_congr' _ _ vs (fun a ha => (ih hwf').1 a (h a ha))
       | _ => simp [Ty.hasTy] at h)
 
 theorem encLaw_lslice (t : Ty) (ih : EncLaw t) : EncLaw (.lslice t) :=
-  encLaw_single _ rfl rfl (fun i v h => by cases v <;> simp [Ty.hasTy] at h <;> simp [recsOf])
+  encLaw_single _ rfl rfl
     (fun hwf v h => by
       cases v with
       | slice vs =>
         rw [lslice_entries t vs [] hwf h]
         simp only [Ty.wf] at hwf
         simp only [Ty.hasTy] at h
-        simp only [List.nil_append, payload, varint]
+        simp only [List.nil_append, payload_lslice, varint]
         congr 1
         apply flatMap_congr'
         intro a ha
         simp only [lenPrefixed, varint, (ih hwf.1).1 a (h a ha)]
       | _ => simp [Ty.hasTy] at h)
-
-/-- one map entry: the message {key = 1; value = 2} with the omission rule. -/
-def entryRecs (k v : Ty) (e : Val × Val) : List Rec :=
-  (if absent e.1 then [] else recsOf k 1 e.1) ++ (if absent e.2 then [] else recsOf v 2 e.2)
 
 theorem entryBody_eq (k v : Ty) (ihk : EncLaw k) (ihv : EncLaw v) (hk : k.wf) (hv : v.wf)
     (e : Val × Val) (h1 : k.hasTy e.1) (h2 : v.hasTy e.2) :
@@ -191,20 +281,16 @@ theorem entryBody_eq (k v : Ty) (ihk : EncLaw k) (ihv : EncLaw v) (hk : k.wf) (h
 
 theorem encLaw_map (k v : Ty) (ihk : EncLaw k) (ihv : EncLaw v) : EncLaw (.map k v false) :=
   encLaw_single _ rfl rfl
-    (fun i x h => by
-      cases x with
-      | map o => cases o <;> simp [recsOf]
-      | _ => simp [Ty.hasTy] at h)
     (fun hwf x h => by
       cases x with
       | map o =>
         cases o with
-        | none => simp [Ty.app, payload, varint]
+        | none => simp [Ty.app, payload_map_none, varint]
         | some es =>
           rw [map_entries k v es [] hwf h]
           simp only [Ty.wf] at hwf
           simp only [Ty.hasTy] at h
-          simp only [List.nil_append, payload, varint]
+          simp only [List.nil_append, payload_map_some, varint]
           congr 1
           apply flatMap_congr'
           intro e he
@@ -220,19 +306,19 @@ theorem encLaw_ptr (t : Ty) (ih : EncLaw t) : EncLaw (.ptr t) := by
   · cases v with
     | ptr o =>
       cases o with
-      | none => simp [Ty.app, payload]
+      | none => simp [Ty.app, payload_ptr_none]
       | some x =>
         simp only [Ty.hasTy] at h
-        simp only [Ty.app, payload]
+        simp only [Ty.app, payload_ptr_some]
         exact (ih hwf.1).1 x h
     | _ => simp [Ty.hasTy] at h
   · cases v with
     | ptr o =>
       cases o with
-      | none => simp [Ty.app, recsOf, render]
+      | none => simp [Ty.app, recsOf_ptr_none, render]
       | some x =>
         simp only [Ty.hasTy] at h
-        simp only [Ty.app, recsOf, Ty.wt]
+        simp only [Ty.app, recsOf_ptr_some, Ty.wt]
         exact (ih hwf.1).2 i x hi h
     | _ => simp [Ty.hasTy] at h
 
@@ -273,7 +359,7 @@ theorem encLaw_pslice (t : Ty) (ih : EncLaw t) : EncLaw (.pslice t) := by
   · cases v with
     | slice vs =>
       simp only [Ty.hasTy] at h
-      simp only [Ty.app, payload]
+      simp only [Ty.app, payload_pslice]
       apply flatMap_congr'
       intro a ha
       simp [(ih hwf.1).1 a (h a ha)]
@@ -281,17 +367,15 @@ theorem encLaw_pslice (t : Ty) (ih : EncLaw t) : EncLaw (.pslice t) := by
   · cases v with
     | slice vs =>
       simp only [Ty.hasTy] at h
-      simp only [Ty.app, recsOf, render_flatMap, Ty.wt]
+      simp only [Ty.app, recsOf_pslice_eq, render_flatMap, Ty.wt]
       apply flatMap_congr'
       intro a ha
       have hB := (ih hwf.1).2 i a hi (h a ha)
       rw [hwf.2.1] at hB
-      simp only [hB, render_isEmpty, RT.appendTag_isEmpty, Bool.false_eq_true, not_false_eq_true, and_true,
-        orEmpty]
+      simp only [hB, render_isEmpty, RT.appendTag_isEmpty, Bool.false_eq_true, not_false_eq_true, and_true, orEmpty]
       cases hre : (recsOf t i a).isEmpty with
       | true =>
-        simp only [↓reduceIte, render_single, renderRec_len i hi, List.length_nil, appendVarUint_zero,
-          List.append_nil]
+        simp only [↓reduceIte, render_single, renderRec_len i hi, List.length_nil, appendVarUint_zero, List.append_nil]
       | false => simp only [Bool.false_eq_true, ↓reduceIte]
     | _ => simp [Ty.hasTy] at h
 
@@ -301,12 +385,12 @@ theorem encLaw_pmap (k v : Ty) (ihk : EncLaw k) (ihv : EncLaw v) : EncLaw (.map 
   · cases x with
     | map o =>
       cases o with
-      | none => simp [Ty.app, payload]
+      | none => simp [Ty.app, payload_pmap_none]
       | some es =>
         rw [pmap_frames k v es [] hwf h]
         simp only [Ty.wf] at hwf
         simp only [Ty.hasTy] at h
-        simp only [List.nil_append, payload]
+        simp only [List.nil_append, payload_pmap_some]
         apply flatMap_congr'
         intro e he
         rw [entryBody_eq k v ihk ihv hwf.1 hwf.2.1 e (h.1 e he).1 (h.1 e he).2]
@@ -315,16 +399,15 @@ theorem encLaw_pmap (k v : Ty) (ihk : EncLaw k) (ihv : EncLaw v) : EncLaw (.map 
   · cases x with
     | map o =>
       cases o with
-      | none => simp [Ty.app, recsOf, render]
+      | none => simp [Ty.app, recsOf_pmap_none, render]
       | some es =>
         rw [pmap_frames k v es _ hwf h]
         simp only [Ty.wf] at hwf
         simp only [Ty.hasTy] at h
-        simp only [recsOf, render_map, Ty.wt]
+        simp only [recsOf_pmap_some, render_map, Ty.wt]
         apply flatMap_congr'
         intro e he
         rw [entryBody_eq k v ihk ihv hwf.1 hwf.2.1 e (h.1 e he).1 (h.1 e he).2, renderRec_len i hi]
-        rfl
     | _ => simp [Ty.hasTy] at h
 
 
@@ -343,7 +426,7 @@ theorem fieldsEncLaw_cons (i : Nat) (n : String) (t : Ty) (r : Fields) (iht : En
   | cons v vs =>
     simp only [fieldsWf] at hwf
     simp only [fieldsHaveTy] at hty
-    simp only [fieldsApp, fieldsOf, render_append, omit_eq_absent t v hty.1]
+    simp only [fieldsApp, fieldsOf_cons', render_append, omit_eq_absent t v hty.1]
     rw [ihr hwf.2 (fun f hf => hidx f (by simp [hf])) vs hty.2]
     congr 1
     cases absent v
@@ -352,13 +435,13 @@ theorem fieldsEncLaw_cons (i : Nat) (n : String) (t : Ty) (r : Fields) (iht : En
     · rfl
 
 theorem encLaw_struct (n : String) (fs : Fields) (ih : FieldsEncLaw fs) : EncLaw (.struct n fs) :=
-  encLaw_single _ rfl rfl (fun i v h => by cases v <;> simp [Ty.hasTy] at h <;> simp [recsOf])
+  encLaw_single _ rfl rfl
     (fun hwf v h => by
       cases v with
       | struct vs =>
         simp only [Ty.wf] at hwf
         simp only [Ty.hasTy] at h
-        simp only [Ty.app, frame_nil, payload]
+        simp only [Ty.app, frame_nil, payload_struct]
         exact ih hwf.2.2 hwf.2.1 vs h
       | _ => simp [Ty.hasTy] at h)
 
@@ -406,5 +489,684 @@ theorem marshal_eq_encode (t : Ty) (v : Val) (hwf : t.wf) (hty : t.hasTy v) :
   cases absent v
   · simp only [Bool.false_eq_true, ↓reduceIte]; exact app_nil_eq_payload t v hwf hty
   · rfl
+
+
+/-! ## Part 2: the struct reader, one record at a time -/
+
+/-- every record of a value written under index `i` carries index `i` and the
+wire type of the field's codec. -/
+theorem recsOf_index_wt : (t : Ty) → t.wf → ∀ (i : Nat) (v : Val), ∀ r ∈ recsOf t i v, r.index = i ∧ r.wt = t.wt
+  | .ptr t => by
+      intro hwf i v r hr
+      simp only [Ty.wf] at hwf
+      cases v with
+      | ptr o =>
+        cases o with
+        | none => simp [recsOf_ptr_none] at hr
+        | some x =>
+          simp only [recsOf_ptr_some] at hr
+          simp only [Ty.wt]
+          exact recsOf_index_wt t hwf.1 i x r hr
+      | _ => simp [recsOf, form] at hr
+  | .pslice t => by
+      intro hwf i v r hr
+      simp only [Ty.wf] at hwf
+      cases v with
+      | slice vs =>
+        simp only [recsOf_pslice_eq, List.mem_flatMap, orEmpty] at hr
+        obtain ⟨a, _, hr⟩ := hr
+        split at hr
+        · simp only [List.mem_singleton] at hr; subst hr; exact ⟨rfl, rfl⟩
+        · have := recsOf_index_wt t hwf.1 i a r hr
+          rw [hwf.2.1] at this
+          exact this
+      | _ => simp [recsOf, form] at hr
+  | .map k v true => by
+      intro _ i x r hr
+      cases x with
+      | map o =>
+        cases o with
+        | none => simp [recsOf_pmap_none] at hr
+        | some es =>
+          simp only [recsOf_pmap_some, List.mem_map] at hr
+          obtain ⟨e, _, rfl⟩ := hr
+          exact ⟨rfl, rfl⟩
+      | _ => simp [recsOf, form] at hr
+  | .map k v false => by
+      intro _ i x r hr
+      cases x with
+      | map o => cases o <;> (simp only [recsOf, form, one, List.mem_singleton] at hr; subst hr; exact ⟨rfl, rfl⟩)
+      | _ => simp [recsOf, form] at hr
+  | .bool | .int _ | .uint _ | .flat _ | .f32 | .f64 | .str _ | .bytes | .time _
+  | .vslice _ | .fslice _ | .lslice _ | .struct _ _ => by
+      intro _ i v r hr
+      cases v <;> first
+        | (simp [recsOf, form] at hr; done)
+        | (simp only [recsOf, form, one, List.mem_singleton] at hr; subst hr; exact ⟨rfl, rfl⟩)
+
+/-- the indexes of the records of a struct value are indexes of its fields. -/
+theorem fieldsOf_index (fs : Fields) (hwf : fieldsWf fs) :
+    ∀ (vs : List Val), ∀ r ∈ fieldsOf fs vs, r.index ∈ fs.map (·.1) := by
+  induction fs with
+  | nil => intro vs r hr; cases vs <;> simp [fieldsOf] at hr
+  | cons f fs ih =>
+    obtain ⟨i, n, t⟩ := f
+    simp only [fieldsWf] at hwf
+    intro vs r hr
+    cases vs with
+    | nil => simp [fieldsOf] at hr
+    | cons v vs =>
+      simp only [fieldsOf_cons', List.mem_append] at hr
+      rcases hr with hr | hr
+      · split at hr
+        · simp at hr
+        · simp [(recsOf_index_wt t hwf.1 i v r hr).1]
+      · simp only [List.map_cons, List.mem_cons]
+        exact Or.inr (ih hwf.2 vs r hr)
+
+
+/-- the records of field index `i` in a message, in wire order. -/
+def recsAt (i : Nat) (recs : List Rec) : List Rec := recs.filter (fun r => r.index == i)
+
+/-- one iteration of the struct loop over the record `r` of a field with codec
+`t` and index `i`: the field's value goes from `a` to `a'`, nothing else of the
+accumulator changes (`put` places the field's value into the accumulator), and
+exactly the bytes of the record are consumed. -/
+def Step (t : Ty) (i : Nat) (r : Rec) (a a' : Val) : Prop :=
+  ∀ (rd : Nat → WT → Bytes → List Val → Res (List Val × Nat)) (put : Val → List Val),
+    (∀ wt body x, rd i wt body (put x) = Res.mapFst put (RT.fieldRead t wt body x)) →
+    ∀ (fuel : Nat) (rest : Bytes) (off : Nat), (renderRec r ++ rest).length < fuel →
+      structLoop rd fuel (renderRec r ++ rest) off (put a)
+        = structLoop rd fuel rest (off + (renderRec r).length) (put a')
+
+/-- the successive values of one field under the records addressed to it. -/
+def Chain (t : Ty) (i : Nat) : Val → List Rec → Val → Prop
+  | a, [], b => a = b
+  | a, r :: rs, b => ∃ m, Step t i r a m ∧ Chain t i m rs b
+
+/-- every field of the accumulator `acc` goes to the corresponding field of
+`res` under the records of `recs` addressed to it. -/
+def FieldChains (recs : List Rec) : Fields → List Val → List Val → Prop
+  | [], [], [] => True
+  | (i, _, t) :: fs, a :: acc, b :: res => Chain t i a (recsAt i recs) b ∧ FieldChains recs fs acc res
+  | _, _, _ => False
+
+theorem fieldChains_congr (R R' : List Rec) : ∀ (fs : Fields) (acc res : List Val),
+    (∀ j ∈ fs.map (·.1), recsAt j R = recsAt j R') → FieldChains R fs acc res → FieldChains R' fs acc res := by
+  intro fs
+  induction fs with
+  | nil => intro acc res _ h; cases acc <;> cases res <;> simp_all [FieldChains]
+  | cons f fs ih =>
+    obtain ⟨i, n, t⟩ := f
+    intro acc res hj h
+    cases acc with
+    | nil => simp [FieldChains] at h
+    | cons a acc =>
+      cases res with
+      | nil => simp [FieldChains] at h
+      | cons b res =>
+        simp only [FieldChains] at h ⊢
+        refine ⟨?_, ih acc res (fun j hjm => hj j (by simp only [List.map_cons, List.mem_cons]; exact Or.inr hjm)) h.2⟩
+        rw [← hj i (by simp)]
+        exact h.1
+
+theorem fieldChains_nil : ∀ (fs : Fields) (acc res : List Val), FieldChains [] fs acc res → acc = res := by
+  intro fs
+  induction fs with
+  | nil => intro acc res h; cases acc <;> cases res <;> simp_all [FieldChains]
+  | cons f fs ih =>
+    obtain ⟨i, n, t⟩ := f
+    intro acc res h
+    cases acc with
+    | nil => simp [FieldChains] at h
+    | cons a acc =>
+      cases res with
+      | nil => simp [FieldChains] at h
+      | cons b res =>
+        simp only [FieldChains, recsAt, List.filter_nil, Chain] at h
+        rw [h.1, ih acc res h.2]
+
+theorem fieldChains_split (R : List Rec) (i : Nat) (n : String) (t : Ty) (suf : Fields) :
+    ∀ (pre : Fields) (acc res : List Val), FieldChains R (pre ++ (i, n, t) :: suf) acc res →
+      ∃ apre a asuf rpre b rsuf, acc = apre ++ a :: asuf ∧ res = rpre ++ b :: rsuf ∧ apre.length = pre.length ∧
+        FieldChains R pre apre rpre ∧ Chain t i a (recsAt i R) b ∧ FieldChains R suf asuf rsuf := by
+  intro pre
+  induction pre with
+  | nil =>
+    intro acc res h
+    cases acc with
+    | nil => simp [FieldChains] at h
+    | cons a acc =>
+      cases res with
+      | nil => simp [FieldChains] at h
+      | cons b res =>
+        simp only [List.nil_append, FieldChains] at h
+        exact ⟨[], a, acc, [], b, res, rfl, rfl, rfl, by simp [FieldChains], h.1, h.2⟩
+  | cons f pre ih =>
+    obtain ⟨j, nj, tj⟩ := f
+    intro acc res h
+    cases acc with
+    | nil => simp [FieldChains] at h
+    | cons a0 acc =>
+      cases res with
+      | nil => simp [FieldChains] at h
+      | cons b0 res =>
+        simp only [List.cons_append, FieldChains] at h
+        obtain ⟨apre, a, asuf, rpre, b, rsuf, h1, h2, h3, h4, h5, h6⟩ := ih acc res h.2
+        refine ⟨a0 :: apre, a, asuf, b0 :: rpre, b, rsuf, by simp [h1], by simp [h2], by simp [h3], ?_, h5, h6⟩
+        simp only [FieldChains]
+        exact ⟨h.1, h4⟩
+
+theorem fieldChains_join (R : List Rec) (i : Nat) (n : String) (t : Ty) (suf : Fields) (a b : Val)
+    (asuf rsuf : List Val) (hc : Chain t i a (recsAt i R) b) (hs : FieldChains R suf asuf rsuf) :
+    ∀ (pre : Fields) (apre rpre : List Val), FieldChains R pre apre rpre →
+      FieldChains R (pre ++ (i, n, t) :: suf) (apre ++ a :: asuf) (rpre ++ b :: rsuf) := by
+  intro pre
+  induction pre with
+  | nil =>
+    intro apre rpre h
+    cases apre <;> cases rpre <;> simp_all [FieldChains]
+  | cons f pre ih =>
+    obtain ⟨j, nj, tj⟩ := f
+    intro apre rpre h
+    cases apre with
+    | nil => simp [FieldChains] at h
+    | cons a0 apre =>
+      cases rpre with
+      | nil => simp [FieldChains] at h
+      | cons b0 rpre =>
+        simp only [FieldChains] at h
+        simp only [List.cons_append, FieldChains]
+        exact ⟨h.1, ih apre rpre h.2⟩
+
+theorem recsAt_cons_ne (r : Rec) (rs : List Rec) (j : Nat) (h : r.index ≠ j) :
+    recsAt j (r :: rs) = recsAt j rs := by
+  simp [recsAt, h]
+
+theorem recsAt_cons_eq (r : Rec) (rs : List Rec) : recsAt r.index (r :: rs) = r :: recsAt r.index rs := by
+  simp [recsAt]
+
+theorem render_cons (r : Rec) (rs : List Rec) : render (r :: rs) = renderRec r ++ render rs := by
+  simp [render]
+
+/-- the struct loop over the rendering of ANY list of records addressed to fields
+of `fs`: the result is determined, field by field, by the records of that field
+in their relative order. -/
+theorem loop_chains (fs : Fields) (hnd : (fs.map (·.1)).Nodup) :
+    ∀ (recs : List Rec) (acc res : List Val), (∀ r ∈ recs, r.index ∈ fs.map (·.1)) →
+      FieldChains recs fs acc res → ∀ (fuel off : Nat), (render recs).length < fuel →
+      structLoop (fun idx wt body acc => readField fs acc idx wt body) fuel (render recs) off acc
+        = .ok (res, off + (render recs).length) := by
+  intro recs
+  induction recs with
+  | nil =>
+    intro acc res _ h fuel off hf
+    rw [fieldChains_nil fs acc res h]
+    simp only [render_nil, List.length_nil, Nat.add_zero]
+    exact RT.structLoop_nil _ _ _ _ (by omega)
+  | cons r rs ih =>
+    intro acc res hidx h fuel off hf
+    have hmem := hidx r (by simp)
+    obtain ⟨f, hf_mem, hfi⟩ := List.mem_map.mp hmem
+    obtain ⟨pre, suf, hfs⟩ := List.append_of_mem hf_mem
+    obtain ⟨i, n, t⟩ := f
+    simp only at hfi
+    subst hfi
+    rw [hfs] at hnd
+    simp only [List.map_append, List.map_cons] at hnd
+    have hnd' := List.nodup_append.mp hnd
+    have hni : r.index ∉ pre.map (·.1) := fun hm => hnd'.2.2 _ hm _ (by simp) rfl
+    have hns : r.index ∉ suf.map (·.1) := (List.nodup_cons.mp hnd'.2.1).1
+    rw [hfs] at h
+    obtain ⟨apre, a, asuf, rpre, b, rsuf, rfl, rfl, hl, hp, hc, hs⟩ := fieldChains_split _ _ n t suf pre acc res h
+    rw [recsAt_cons_eq] at hc
+    obtain ⟨m, hstep, hc'⟩ := hc
+    rw [render_cons] at hf ⊢
+    have := hstep (fun idx wt body acc => readField fs acc idx wt body) (fun x => apre ++ x :: asuf)
+      (fun wt body x => by
+        simp only [hfs]
+        exact RT.readField_at pre r.index n t suf hni apre hl x asuf wt body)
+      fuel (render rs) off hf
+    rw [this]
+    have hp' : FieldChains rs pre apre rpre :=
+      fieldChains_congr _ _ pre apre rpre (fun j hj => recsAt_cons_ne r rs j (fun e => hni (e ▸ hj))) hp
+    have hs' : FieldChains rs suf asuf rsuf :=
+      fieldChains_congr _ _ suf asuf rsuf (fun j hj => recsAt_cons_ne r rs j (fun e => hns (e ▸ hj))) hs
+    have hall := fieldChains_join rs r.index n t suf m b asuf rsuf hc' hs' pre apre rpre hp'
+    rw [← hfs] at hall
+    simp only [List.length_append] at hf
+    rw [ih _ _ (fun x hx => hidx x (by simp [hx])) hall fuel _ (by omega)]
+    simp only [List.length_append, Nat.add_assoc]
+
+
+/-! ### the canonical chains: what each field's records do, in writing order -/
+
+theorem recsOf_single (t : Ty) (i : Nat) (v : Val) (hs : Ty.rtShape false t) (hty : t.hasTy v)
+    (hv : v ≠ .ptr none) : ∃ r, recsOf t i v = [r] := by
+  by_cases hp : t.isPtr = false
+  · exact ⟨_, recsOf_single_np t i v hp (isPtr_false_not_rep_of_shape t hs) hty⟩
+  · cases t with
+    | ptr u =>
+      simp only [Ty.rtShape] at hs
+      cases v with
+      | ptr o =>
+        cases o with
+        | none => exact absurd rfl hv
+        | some x =>
+          simp only [Ty.hasTy] at hty
+          simp only [recsOf_ptr_some]
+          exact ⟨_, recsOf_single_np u i x hs.1 (isPtr_false_not_rep_of_shape u hs.2) hty⟩
+      | _ => simp [Ty.hasTy] at hty
+    | _ => simp [Ty.isPtr] at hp
+
+/-- a field of a non-repeated kind has exactly one record; it takes the field
+from its zero value to the normalised value. -/
+theorem chain_single (t : Ty) (i : Nat) (v : Val) (hwf : t.wf) (hs : Ty.rtShape false t) (hi : i < 2 ^ 61)
+    (hty : t.hasTy v) (ho : v.omit = false) (hsz : (render (recsOf t i v)).length < 2 ^ 64) :
+    Chain t i t.zero (recsOf t i v) (t.norm v) := by
+  have hrt : RTField t := (pp_ty t hwf).2 (shape_true_of_false t hs)
+  have happ := app_tag_eq_recs t i v hwf hi hty
+  obtain ⟨r, hr⟩ := recsOf_single t i v hs hty (ne_ptr_none_of_not_omit v ho)
+  rw [hr, render_single] at happ hsz
+  rw [hr]
+  refine ⟨t.norm v, ?_, rfl⟩
+  intro rd put hrd fuel rest off hf
+  have := hrt i v hi hty ho (by rw [happ]; exact hsz) rd put hrd fuel rest off (by rw [happ]; exact hf)
+  rw [happ] at this
+  exact this
+
+
+/-! #### protobuf repeated slice -/
+
+/-- the record of one element of a repeated-form slice. -/
+def elemRec (t : Ty) (i : Nat) (v : Val) : Rec := ⟨i, .len, payload t v⟩
+
+theorem elemRecs_single (t : Ty) (i : Nat) (v : Val) (hs : Ty.rtShape false t) (hwt : t.wt = .len)
+    (hty : t.hasTy v) : orEmpty i (recsOf t i v) = [elemRec t i v] := by
+  by_cases hp : t.isPtr = false
+  · rw [recsOf_single_np t i v hp (isPtr_false_not_rep_of_shape t hs) hty, wtOf_eq, hwt]
+    rfl
+  · cases t with
+    | ptr u =>
+      simp only [Ty.rtShape] at hs
+      simp only [Ty.wt] at hwt
+      cases v with
+      | ptr o =>
+        cases o with
+        | none => simp [recsOf_ptr_none, orEmpty, elemRec, payload_ptr_none]
+        | some x =>
+          simp only [Ty.hasTy] at hty
+          simp only [recsOf_ptr_some, elemRec, payload_ptr_some]
+          rw [recsOf_single_np u i x hs.1 (isPtr_false_not_rep_of_shape u hs.2) hty, wtOf_eq, hwt]
+          rfl
+      | _ => simp [Ty.hasTy] at hty
+    | _ => simp [Ty.isPtr] at hp
+
+theorem flatMap_singleton' {α β : Type} (f : α → List β) (g : α → β) (l : List α)
+    (h : ∀ a ∈ l, f a = [g a]) : l.flatMap f = l.map g := by
+  induction l with
+  | nil => rfl
+  | cons a l ih =>
+    simp only [List.flatMap_cons, List.map_cons, h a (by simp), List.singleton_append]
+    rw [ih (fun x hx => h x (by simp [hx]))]
+
+theorem recsOf_pslice (t : Ty) (i : Nat) (vs : List Val) (hs : Ty.rtShape false t) (hwt : t.wt = .len)
+    (hty : ∀ v ∈ vs, t.hasTy v) : recsOf (.pslice t) i (.slice vs) = vs.map (elemRec t i) := by
+  simp only [recsOf_pslice_eq]
+  exact flatMap_singleton' _ _ vs (fun a ha => elemRecs_single t i a hs hwt (hty a ha))
+
+theorem renderRec_elem (t : Ty) (i : Nat) (v : Val) (hwf : t.wf) (hi : i < 2 ^ 61) (hty : t.hasTy v) :
+    renderRec (elemRec t i v) = elemFrame t v (appendTag .len i) := by
+  rw [elemRec, renderRec_len i hi, elemFrame, app_nil_eq_payload t v hwf hty]
+
+theorem step_pslice (t : Ty) (i : Nat) (v : Val) (done : List Val) (hwf : (Ty.pslice t).wf)
+    (hs : Ty.rtShape false t) (hi : i < 2 ^ 61) (hty : t.hasTy v)
+    (hsz : (renderRec (elemRec t i v)).length < 2 ^ 64) :
+    Step (.pslice t) i (elemRec t i v) (.slice done) (.slice (done ++ [elemNorm t v])) := by
+  simp only [Ty.wf] at hwf
+  intro rd put hrd fuel rest off hf
+  rw [renderRec_elem t i v hwf.1 hi hty] at hsz hf ⊢
+  have := pslice_loop t hwf.1 hs hwf.2.1 hwf.2.2 ((pp_ty t hwf.1).1 hs) i hi rd put hrd [v] done fuel rest off
+    (fun x hx => by simp only [List.mem_singleton] at hx; subst hx; exact hty)
+    (by simpa using hsz) (by simpa using hf)
+  simpa using this
+
+theorem chain_pslice_aux (t : Ty) (i : Nat) (hwf : (Ty.pslice t).wf) (hs : Ty.rtShape false t)
+    (hi : i < 2 ^ 61) : ∀ (vs done : List Val), (∀ v ∈ vs, t.hasTy v) →
+      (∀ v ∈ vs, (renderRec (elemRec t i v)).length < 2 ^ 64) →
+      Chain (.pslice t) i (.slice done) (vs.map (elemRec t i)) (.slice (done ++ vs.map (elemNorm t))) := by
+  intro vs
+  induction vs with
+  | nil => intro done _ _; simp [Chain]
+  | cons v vs ih =>
+    intro done hty hsz
+    simp only [List.map_cons, Chain]
+    refine ⟨_, step_pslice t i v done hwf hs hi (hty v (by simp)) (hsz v (by simp)), ?_⟩
+    have := ih (done ++ [elemNorm t v]) (fun x hx => hty x (by simp [hx])) (fun x hx => hsz x (by simp [hx]))
+    simpa using this
+
+theorem chain_pslice (t : Ty) (i : Nat) (vs : List Val) (hwf : (Ty.pslice t).wf) (hs : Ty.rtShape false t)
+    (hi : i < 2 ^ 61) (hty : (Ty.pslice t).hasTy (.slice vs))
+    (hsz : (render (recsOf (.pslice t) i (.slice vs))).length < 2 ^ 64) :
+    Chain (.pslice t) i (Ty.pslice t).zero (recsOf (.pslice t) i (.slice vs)) ((Ty.pslice t).norm (.slice vs)) := by
+  have hwt := hwf
+  simp only [Ty.wf] at hwt
+  simp only [Ty.hasTy] at hty
+  rw [recsOf_pslice t i vs hs hwt.2.1 hty] at hsz ⊢
+  rw [norm_pslice]
+  have := chain_pslice_aux t i hwf hs hi vs [] hty (fun v hv => by
+    rw [render_map] at hsz
+    have := length_le_flatMap_of_mem (fun a => renderRec (elemRec t i a)) vs v hv
+    omega)
+  simpa [Ty.zero] using this
+
+
+/-! #### protobuf map -/
+
+/-- the record of one entry of a protobuf-form map. -/
+def entryRec (k v : Ty) (i : Nat) (e : Val × Val) : Rec := ⟨i, .len, render (entryRecs k v e)⟩
+
+theorem recsOf_pmap (k v : Ty) (i : Nat) (es : List (Val × Val)) :
+    recsOf (.map k v true) i (.map (some es)) = es.map (entryRec k v i) := by
+  simp only [recsOf_pmap_some]; rfl
+
+/-- the value of a map field after the entries `l` have been stored: still the
+nil map when there were none. -/
+def mapAcc (l : List (Val × Val)) : Val := if l.isEmpty then .map none else .map (some l)
+
+theorem read_pmap_acc (k v : Ty) (B : Bytes) (l l' : List (Val × Val)) (n : Nat)
+    (h : readMapEntry (fun wt b => k.read wt b k.zero) (fun wt b s => v.read wt b s) k.zero v.zero B l
+      = .ok (l', n)) :
+    (Ty.map k v true).read .len B (mapAcc l) = .ok (.map (some l'), n) := by
+  cases l with
+  | nil => simp only [mapAcc, List.isEmpty_nil, ↓reduceIte, Ty.read, h]
+  | cons x l => simp only [mapAcc, List.isEmpty_cons, Bool.false_eq_true, ↓reduceIte, Ty.read, h]
+
+theorem chain_pmap_aux (k v : Ty) (i : Nat) (hwf : (Ty.map k v true).wf) (hi : i < 2 ^ 61)
+    (es : List (Val × Val)) (hty : (Ty.map k v true).hasTy (.map (some es)))
+    (H : ∀ pre e suf, es = pre ++ e :: suf →
+      (entryBody k v e).length < 2 ^ 64 ∧
+      readMapEntry (fun wt b => k.read wt b k.zero) (fun wt b s => v.read wt b s) k.zero v.zero
+          (entryBody k v e) ([] ++ pre.map (entryNorm k v))
+        = .ok ([] ++ pre.map (entryNorm k v) ++ [entryNorm k v e], (entryBody k v e).length)) :
+    ∀ (suf pre : List (Val × Val)), es = pre ++ suf →
+      Chain (.map k v true) i (mapAcc (pre.map (entryNorm k v))) (suf.map (entryRec k v i))
+        (mapAcc (es.map (entryNorm k v))) := by
+  simp only [Ty.wf] at hwf
+  simp only [Ty.hasTy] at hty
+  intro suf
+  induction suf with
+  | nil => intro pre h; simp only [List.append_nil] at h; subst h; simp [Chain]
+  | cons e suf ih =>
+    intro pre h
+    obtain ⟨hl, hr⟩ := H pre e suf h
+    simp only [List.nil_append] at hr
+    have he : e ∈ es := by rw [h]; simp
+    have hB : entryBody k v e = render (entryRecs k v e) :=
+      entryBody_eq k v (encLaw_ty k) (encLaw_ty v) hwf.1 hwf.2.1 e (hty.1 e he).1 (hty.1 e he).2
+    simp only [List.map_cons, Chain]
+    refine ⟨mapAcc ((pre ++ [e]).map (entryNorm k v)), ?_, ?_⟩
+    · intro rd put hrd fuel rest off hf
+      have hread := read_pmap_acc k v _ _ _ _ hr
+      have hacc : mapAcc ((pre ++ [e]).map (entryNorm k v))
+          = .map (some (pre.map (entryNorm k v) ++ [entryNorm k v e])) := by
+        simp [mapAcc]
+      rw [hacc]
+      have hrr : renderRec (entryRec k v i e)
+          = appendTag .len i ++ (appendVarUint (entryBody k v e).length ++ entryBody k v e) := by
+        rw [entryRec, renderRec_len i hi, ← hB, List.append_assoc]
+      rw [hrr] at hf ⊢
+      simp only [List.append_assoc] at hf ⊢
+      rw [frame_step (.map k v true) i hi rd put hrd (entryBody k v e) rest hl _ _ hread fuel off hf]
+      simp only [List.length_append]
+    · exact ih (pre ++ [e]) (by simp [h])
+
+theorem chain_pmap (k v : Ty) (i : Nat) (es : List (Val × Val)) (hwf : (Ty.map k v true).wf)
+    (hks : k.keySafe) (hvs : Ty.rtShape false v) (hi : i < 2 ^ 61)
+    (hty : (Ty.map k v true).hasTy (.map (some es)))
+    (hsz : (render (recsOf (.map k v true) i (.map (some es)))).length < 2 ^ 64) :
+    Chain (.map k v true) i (Ty.map k v true).zero (recsOf (.map k v true) i (.map (some es)))
+      ((Ty.map k v true).norm (.map (some es))) := by
+  have hwf' := hwf
+  have hty' := hty
+  simp only [Ty.wf] at hwf'
+  simp only [Ty.hasTy] at hty'
+  rw [recsOf_pmap] at hsz ⊢
+  have hle : ∀ e ∈ es, (entryBody k v e).length < 2 ^ 64 := by
+    intro e he
+    rw [render_map] at hsz
+    have h1 := length_le_flatMap_of_mem (fun a => renderRec (entryRec k v i a)) es e he
+    have hB : entryBody k v e = render (entryRecs k v e) :=
+      entryBody_eq k v (encLaw_ty k) (encLaw_ty v) hwf'.1 hwf'.2.1 e (hty'.1 e he).1 (hty'.1 e he).2
+    have h2 : (entryBody k v e).length ≤ (renderRec (entryRec k v i e)).length := by
+      rw [entryRec, renderRec_len i hi, ← hB]
+      simp only [List.length_append]; omega
+    omega
+  have H := entries_rt k v hwf'.1 hwf'.2.1 hks hvs ((pp_ty k hwf'.1).1 (keySafe_shape k hks))
+    ((pp_ty v hwf'.2.1).1 hvs) es hty'.1 hty'.2 hle
+  have := chain_pmap_aux k v i hwf hi es hty H es [] rfl
+  have hn : (Ty.map k v true).norm (.map (some es)) = mapAcc (es.map (entryNorm k v)) := by
+    rw [norm_map]
+    cases es <;> simp [mapAcc]
+  rw [hn]
+  simpa [mapAcc, Ty.zero] using this
+
+
+/-- the records of one struct field (the omission rule applied). -/
+def fieldRecs (t : Ty) (i : Nat) (v : Val) : List Rec := if absent v then [] else recsOf t i v
+
+/-- the chain of any field allowed in a struct: from the zero value to the
+normalised value of what was written. -/
+theorem chain_field (t : Ty) (i : Nat) (v : Val) (hwf : t.wf) (hs : Ty.rtShape true t) (hi : i < 2 ^ 61)
+    (hty : t.hasTy v) (hsz : (render (fieldRecs t i v)).length < 2 ^ 64) :
+    Chain t i t.zero (fieldRecs t i v) (if v.omit then t.zero else t.norm v) := by
+  unfold fieldRecs at hsz ⊢
+  rw [omit_eq_absent t v hty]
+  cases ha : absent v with
+  | true => simp [Chain]
+  | false =>
+    have ho : v.omit = false := by rw [omit_eq_absent t v hty]; exact ha
+    simp only [ha, Bool.false_eq_true, ↓reduceIte] at hsz ⊢
+    cases hr : t.isProtoRep with
+    | false => exact chain_single t i v hwf (shape_false_of_true t hr hs) hi hty ho hsz
+    | true =>
+      cases t with
+      | pslice u =>
+        simp only [Ty.rtShape, true_and] at hs
+        cases v with
+        | slice vs => exact chain_pslice u i vs hwf hs hi hty hsz
+        | _ => simp [Ty.hasTy] at hty
+      | map k x p =>
+        cases p with
+        | false => simp [Ty.isProtoRep] at hr
+        | true =>
+          simp only [Ty.rtShape] at hs
+          cases v with
+          | map o =>
+            cases o with
+            | none => simp [absent] at ha
+            | some es => exact chain_pmap k x i es hwf hs.2.1 hs.2.2 hi hty hsz
+          | _ => simp [Ty.hasTy] at hty
+      | _ => simp [Ty.isProtoRep] at hr
+
+theorem recsAt_append (i : Nat) (a b : List Rec) : recsAt i (a ++ b) = recsAt i a ++ recsAt i b := by
+  simp [recsAt]
+
+theorem recsAt_eq_nil (i : Nat) (R : List Rec) (h : ∀ r ∈ R, r.index ≠ i) : recsAt i R = [] := by
+  simp only [recsAt, List.filter_eq_nil_iff, beq_iff_eq]
+  exact h
+
+theorem recsAt_eq_self (i : Nat) (R : List Rec) (h : ∀ r ∈ R, r.index = i) : recsAt i R = R := by
+  simp only [recsAt, List.filter_eq_self, beq_iff_eq]
+  exact h
+
+theorem fieldRecs_index (t : Ty) (i : Nat) (v : Val) (hwf : t.wf) : ∀ r ∈ fieldRecs t i v, r.index = i := by
+  intro r hr
+  unfold fieldRecs at hr
+  split at hr
+  · simp at hr
+  · exact (recsOf_index_wt t hwf i v r hr).1
+
+theorem fieldsOf_cons (i : Nat) (n : String) (t : Ty) (fs : Fields) (v : Val) (vs : List Val) :
+    fieldsOf ((i, n, t) :: fs) (v :: vs) = fieldRecs t i v ++ fieldsOf fs vs := by
+  simp only [fieldsOf_cons', fieldRecs]
+
+/-- the records addressed to index `j` in the canonical message. -/
+theorem recsAt_fieldsOf_cons (i : Nat) (n : String) (t : Ty) (fs : Fields) (v : Val) (vs : List Val)
+    (hwf : fieldsWf ((i, n, t) :: fs)) (hni : i ∉ fs.map (·.1)) (j : Nat) :
+    recsAt j (fieldsOf ((i, n, t) :: fs) (v :: vs))
+      = if j = i then fieldRecs t i v else recsAt j (fieldsOf fs vs) := by
+  simp only [fieldsWf] at hwf
+  rw [fieldsOf_cons, recsAt_append]
+  by_cases hj : j = i
+  · subst hj
+    simp only [↓reduceIte]
+    rw [recsAt_eq_self _ _ (fieldRecs_index t j v hwf.1), recsAt_eq_nil _ (fieldsOf fs vs), List.append_nil]
+    intro r hr e
+    exact hni (e ▸ fieldsOf_index fs hwf.2 vs r hr)
+  · simp only [hj, ↓reduceIte]
+    rw [recsAt_eq_nil _ (fieldRecs t i v), List.nil_append]
+    intro r hr e
+    exact hj ((fieldRecs_index t i v hwf.1 r hr) ▸ e.symm)
+
+theorem fieldChains_canonical : ∀ (fs : Fields), (fs.map (·.1)).Nodup → (∀ f ∈ fs, f.1 < 2 ^ 61) →
+    fieldsWf fs → fieldsRtShape fs → ∀ (vs : List Val), fieldsHaveTy fs vs →
+    (render (fieldsOf fs vs)).length < 2 ^ 64 →
+    FieldChains (fieldsOf fs vs) fs (zeros fs) (fieldsNorm fs vs) := by
+  intro fs
+  induction fs with
+  | nil => intro _ _ _ _ vs hty _; cases vs <;> simp_all [fieldsHaveTy, FieldChains, zeros, fieldsNorm]
+  | cons f fs ih =>
+    obtain ⟨i, n, t⟩ := f
+    intro hnd hidx hwf hs vs hty hsz
+    cases vs with
+    | nil => simp [fieldsHaveTy] at hty
+    | cons v vs =>
+      have hwf' := hwf
+      simp only [fieldsWf] at hwf'
+      simp only [fieldsRtShape] at hs
+      simp only [fieldsHaveTy] at hty
+      simp only [List.map_cons, List.nodup_cons] at hnd
+      have hsz' := hsz
+      rw [fieldsOf_cons, render_append, List.length_append] at hsz'
+      simp only [zeros, fieldsNorm, FieldChains]
+      constructor
+      · rw [recsAt_fieldsOf_cons i n t fs v vs hwf hnd.1 i]
+        simp only [↓reduceIte]
+        exact chain_field t i v hwf'.1 hs.1 (hidx (i, n, t) (by simp)) hty.1 (by omega)
+      · have := ih hnd.2 (fun f hf => hidx f (by simp [hf])) hwf'.2 hs.2 vs hty.2 (by omega)
+        refine fieldChains_congr _ _ fs _ _ (fun j hj => ?_) this
+        rw [recsAt_fieldsOf_cons i n t fs v vs hwf hnd.1 j]
+        have hji : j ≠ i := fun e => hnd.1 (e ▸ hj)
+        simp only [hji, ↓reduceIte]
+
+/-- Reading ANY message whose records, field by field, are those of the
+canonical message `fieldsOf fs vs` in the same relative order yields the
+normalised struct value and consumes everything. -/
+theorem read_records (n : String) (fs : Fields) (vs : List Val) (recs : List Rec)
+    (hwf : (Ty.struct n fs).wf) (hs : fieldsRtShape fs) (hty : fieldsHaveTy fs vs)
+    (hmem : ∀ r ∈ recs, r ∈ fieldsOf fs vs)
+    (hord : ∀ i, recsAt i recs = recsAt i (fieldsOf fs vs))
+    (hsz : (render (fieldsOf fs vs)).length < 2 ^ 64) :
+    (Ty.struct n fs).read .len (render recs) (Ty.struct n fs).zero
+      = .ok (.struct (fieldsNorm fs vs), (render recs).length) := by
+  simp only [Ty.wf] at hwf
+  have hcan := fieldChains_canonical fs hwf.1 hwf.2.1 hwf.2.2 hs vs hty hsz
+  have hch := fieldChains_congr _ recs fs _ _ (fun j _ => (hord j).symm) hcan
+  have := loop_chains fs hwf.1 recs _ _ (fun r hr => fieldsOf_index fs hwf.2.2 vs r (hmem r hr)) hch
+    ((render recs).length + 1) 0 (by omega)
+  simp only [Ty.read, Ty.zero, this, Nat.zero_add]
+
+
+/-! ### permutations -/
+
+/-- no field of the struct uses a protobuf repeated form (`proto`-tagged slice or
+map): every field then has at most one record. -/
+def noRepeated (fs : Fields) : Bool := fs.all fun f => !f.2.2.isProtoRep
+
+theorem fieldRecs_le_one (t : Ty) (i : Nat) (v : Val) (hs : Ty.rtShape true t) (hr : t.isProtoRep = false)
+    (hty : t.hasTy v) : (fieldRecs t i v).length ≤ 1 := by
+  unfold fieldRecs
+  cases ha : absent v with
+  | true => simp
+  | false =>
+    have hv : v ≠ .ptr none := by intro e; subst e; simp [absent] at ha
+    obtain ⟨r, hr⟩ := recsOf_single t i v (shape_false_of_true t hr hs) hty hv
+    simp [hr]
+
+theorem recsAt_fieldsOf_le_one : ∀ (fs : Fields), (fs.map (·.1)).Nodup → fieldsWf fs → fieldsRtShape fs →
+    noRepeated fs = true → ∀ (vs : List Val), fieldsHaveTy fs vs →
+    ∀ j, (recsAt j (fieldsOf fs vs)).length ≤ 1 := by
+  intro fs
+  induction fs with
+  | nil => intro _ _ _ _ vs _ j; cases vs <;> simp [fieldsOf, recsAt]
+  | cons f fs ih =>
+    obtain ⟨i, n, t⟩ := f
+    intro hnd hwf hs hnr vs hty j
+    cases vs with
+    | nil => simp [fieldsOf, recsAt]
+    | cons v vs =>
+      have hwf' := hwf
+      simp only [fieldsWf] at hwf'
+      simp only [fieldsRtShape] at hs
+      simp only [fieldsHaveTy] at hty
+      simp only [List.map_cons, List.nodup_cons] at hnd
+      simp only [noRepeated, List.all_cons, Bool.and_eq_true, Bool.not_eq_eq_eq_not, Bool.not_true] at hnr
+      rw [recsAt_fieldsOf_cons i n t fs v vs hwf hnd.1 j]
+      split
+      · exact fieldRecs_le_one t i v hs.1 hnr.1 hty.1
+      · exact ih hnd.2 hwf'.2 hs.2 hnr.2 vs hty.2 j
+
+theorem perm_recsAt_of_le_one (recs R : List Rec) (hp : recs.Perm R) (h1 : ∀ i, (recsAt i R).length ≤ 1) :
+    ∀ i, recsAt i recs = recsAt i R := by
+  intro i
+  have hpf : (recsAt i recs).Perm (recsAt i R) := hp.filter _
+  have hl := h1 i
+  cases hR : recsAt i R with
+  | nil => rw [hR] at hpf; exact List.perm_nil.mp hpf
+  | cons a l =>
+    cases l with
+    | nil => rw [hR] at hpf; exact List.perm_singleton.mp hpf
+    | cons b l => rw [hR] at hl; simp at hl
+
+/-- every record of a struct value belongs to one of its fields: it carries that
+field's index and the wire type of that field's codec. -/
+theorem fieldsOf_field (fs : Fields) (hwf : fieldsWf fs) :
+    ∀ (vs : List Val), ∀ r ∈ fieldsOf fs vs, ∃ f ∈ fs, r.index = f.1 ∧ r.wt = f.2.2.wt := by
+  induction fs with
+  | nil => intro vs r hr; cases vs <;> simp [fieldsOf] at hr
+  | cons f fs ih =>
+    obtain ⟨i, n, t⟩ := f
+    simp only [fieldsWf] at hwf
+    intro vs r hr
+    cases vs with
+    | nil => simp [fieldsOf] at hr
+    | cons v vs =>
+      rw [fieldsOf_cons, List.mem_append] at hr
+      rcases hr with hr | hr
+      · unfold fieldRecs at hr
+        split at hr
+        · simp at hr
+        · exact ⟨(i, n, t), by simp, recsOf_index_wt t hwf.1 i v r hr⟩
+      · obtain ⟨f, hf, h⟩ := ih hwf.2 vs r hr
+        exact ⟨f, by simp [hf], h⟩
+
+/-- it is enough to compare the per-field sub-sequences at the indexes that occur. -/
+theorem sameOrder_of_all (a b : List Rec)
+    (h : ∀ i ∈ (a ++ b).map (·.index), recsAt i a = recsAt i b) : ∀ i, recsAt i a = recsAt i b := by
+  intro i
+  by_cases hi : i ∈ (a ++ b).map (·.index)
+  · exact h i hi
+  · simp only [List.map_append, List.mem_append, List.mem_map, not_or, not_exists, not_and] at hi
+    rw [recsAt_eq_nil i a (fun r hr e => hi.1 r hr e), recsAt_eq_nil i b (fun r hr e => hi.2 r hr e)]
+
+/-- exchanging two adjacent records of different fields keeps every per-field
+sub-sequence. -/
+theorem sameOrder_swap (a b : List Rec) (r1 r2 : Rec) (h : r1.index ≠ r2.index) :
+    ∀ i, recsAt i (a ++ r2 :: r1 :: b) = recsAt i (a ++ r1 :: r2 :: b) := by
+  intro i
+  simp only [recsAt, List.filter_append, List.filter_cons]
+  by_cases h1 : r1.index = i <;> by_cases h2 : r2.index = i <;> simp [h1, h2]
+  exact absurd (h1.trans h2.symm) h
 
 end SpecP
